@@ -353,6 +353,75 @@ def run_coneqp(pname, prob, extra_opts=None, inject=None):
     return sol, inj, None
 
 
+def wrappers():
+    """lp / socp / sdp / qp: options flow, argument errors"""
+    c = matrix([-2., 1., 5.])
+    Gq = [matrix([[12., 13., 12.], [6., -3., -12.], [-5., -5., 6.]]),
+          matrix([[3., 3., -1., 1.], [-6., 1., -2., 0.5],
+                  [10., 2., 0.1, 0.3]])]
+    hq = [matrix([-12., -3., -2.]), matrix([27., 2., 4., 5.])]
+    for name, call in [
+            ('lp', lambda o: solvers.lp(lp1()['c'], lp1()['G'], lp1()['h'],
+                                        options=o)),
+            ('socp', lambda o: solvers.socp(c, Gq=Gq, hq=hq, options=o)),
+            ('sdp', lambda o: solvers.sdp(sdp1()['c'], Gs=[sdp1()['G']],
+                                          hs=[matrix(sdp1()['h'], (2, 2))],
+                                          options=o)),
+            ('qp', lambda o: solvers.qp(qp1()['P'], qp1()['q'], qp1()['G'],
+                                        qp1()['h'], options=o))]:
+        try:
+            sol = call({'maxiters': 1, 'show_progress': False})
+            it = sol.get('iterations')
+            if it is not None and it > 1:
+                fail('options-flow', "%s(options={'maxiters': 1}) ran %r "
+                     "iterations: the per-call options were not passed on"
+                     % (name, it))
+        except Exception as e:
+            fail('options-flow', '%s(options=...) raised %r' % (name, e))
+        try:
+            call({'maxiters': -5, 'show_progress': False})
+            fail('options-flow', "%s(options={'maxiters': -5}) was not "
+                 "rejected" % name)
+        except ValueError:
+            pass
+        except Exception as e:
+            fail('exception-type', '%s(invalid option) raised %s' % (
+                name, type(e).__name__))
+    # argument errors must be TypeError/ValueError
+    bad = [('sdp', lambda: solvers.sdp(matrix([1.0]), Gs=[matrix(
+        0.0, (3, 1))], hs=[matrix(0.0, (2, 2))])),
+        ('socp', lambda: solvers.socp(matrix([1.0]), Gq=[matrix(
+            0.0, (3, 1))], hq=[matrix(0.0, (2, 1))])),
+        ('lp', lambda: solvers.lp(matrix([1.0]), matrix(0.0, (2, 2)),
+                                  matrix(0.0, (2, 1)))),
+        ('qp', lambda: solvers.qp(matrix(1.0, (2, 2)), matrix([1.0])))]
+    # non-vector y without b: documented ValueError
+    yops = dict(ynewcopy=lambda y: list(y), ydot=lambda u, v: 0.0,
+                yaxpy=lambda u, v, alpha=1.0: None,
+                yscal=lambda a, u: None)
+    opA = lambda u, v, alpha=1.0, beta=0.0, trans='N': None
+    kkt = lambda *a: (lambda *b: None)
+
+    def F(x=None, z=None):
+        if x is None:
+            return 0, matrix(0.0, (2, 1))
+        return matrix(0.0, (0, 1)), matrix(0.0, (0, 2))
+    bad += [('coneqp', lambda: solvers.coneqp(
+        matrix([[1., 0.], [0., 1.]]), matrix([1., 1.]), A=opA, b=None,
+        kktsolver=kkt, **yops)),
+        ('cpl', lambda: solvers.cpl(matrix([1., 1.]), F, A=opA, b=None,
+                                    kktsolver=kkt, **yops)),
+        ('cp', lambda: solvers.cp(F, A=opA, b=None, kktsolver=kkt, **yops))]
+    for name, call in bad:
+        try:
+            call()
+        except (TypeError, ValueError):
+            pass
+        except BaseException as e:
+            fail('exception-type', '%s(ill-formed arguments) raised %s: %s'
+                 % (name, type(e).__name__, e))
+
+
 def main():
     for pname, mk in CONELP:
         for eo in ({}, {'maxiters': 3}):
@@ -377,6 +446,7 @@ def main():
                 run_coneqp(pname, mk(), None, (k, None))
             for k in range(1, min(ns, 40) + 1):
                 run_coneqp(pname, mk(), None, (None, k))
+    wrappers()
     extra = sys.argv[1:]
     for mod in extra:
         try:
